@@ -17,22 +17,23 @@ Theorem C19_clients_served : forall k tr,
   let s := run k tr in
   v_started s = true -> v_stopreq s = false ->
   v_conns (step s LConnect) = v_conns s ++ [{| k_client_open := true; k_session := true;
-                                               k_replies := 1; k_hello := true |}] /\
+                                               k_replies := 1; k_hello := true; k_waiting := false |}] /\
   forall c x, nth_error (v_conns s) c = Some x -> k_client_open x = true -> k_session x = true ->
-    k_hello x = true ->
+    k_hello x = true -> k_waiting x = false ->
     nth_error (v_conns (step s (LSend c))) c
     = Some {| k_client_open := true; k_session := true; k_replies := S (k_replies x);
-              k_hello := true |} /\
+              k_hello := true; k_waiting := false |} /\
     forall c', c' <> c -> nth_error (v_conns (step s (LSend c))) c' = nth_error (v_conns s) c'.
 Proof.
   intros k tr s Hst Hns.
   destruct (inv_serving _ (Inv_run k tr) Hst Hns) as [Hl Hd]. fold s in Hl, Hd.
   split.
   - cbn [step]. rewrite Hl. reflexivity.
-  - intros c x Hx Ho Hse Hh. cbn [step]. rewrite Hx, Ho, Hse, Hh. cbn [andb].
+  - intros c x Hx Ho Hse Hh Hw. cbn [step]. rewrite Hx, Ho, Hse, Hh, Hw. cbn [andb negb].
     destruct (settle_fields (set_conns s (upd (v_conns s) c
                 {| k_client_open := true; k_session := v_listening s;
-                   k_replies := S (k_replies x); k_hello := true |}))) as [_ [_ [Hc _]]].
+                   k_replies := S (k_replies x); k_hello := true; k_waiting := false |})))
+      as [_ [_ [Hc _]]].
     rewrite Hc. unfold set_conns. cbn [v_conns]. split.
     + rewrite nth_error_upd, Nat.eqb_refl, Hl.
       assert (Hlt : c < length (v_conns s)) by (apply nth_error_Some; congruence).
@@ -76,15 +77,31 @@ Proof.
 Qed.
 
 (** ... and it does complete: after the serving task was cancelled, as soon as every connected
-    client has disconnected (in any order, other labels of clients that are gone being no-ops)
+    client has disconnected (in any order, other labels of clients that are gone being no-ops) - PROVIDED no session is
+    inside a waiting command -
     the task is done, the address stays closed and a Unix server's socket file is gone. *)
 Theorem C19_stop_completes : forall k tr cs,
   let s := run k tr in
-  v_stopreq s = true ->
+  v_stopreq s = true -> SStop.nobody_waits s ->
   (forall c, c < length (v_conns s) -> In c cs) ->
   let s' := fold_left step (map LLeave cs) s in
   v_done s' = true /\ v_listening s' = false /\ v_sockfile s' = false.
 Proof. exact SStop.stop_completes. Qed.
+
+(** REFUTED without that hypothesis (open finding D12): a client sends a command whose method
+    waits (until-closed on a pool nobody closes) and disconnects; its session stays inside the pool
+    call and cannot notice; the serving task is then cancelled - and never completes, although no
+    client is connected any more: "it completes once connected clients have gone" fails.  The
+    witness is replayed on the implementation by the C19 check (KNOWN-FINDING). *)
+Theorem C19_stop_waits_for_waiting_session :
+  exists tr, let s := run TCP tr in
+    v_stopreq s = true /\ v_done s = false /\
+    forallb (fun k => negb (k_client_open k)) (v_conns s) = true /\
+    (* ... and no departure of anybody can change that *)
+    v_done (fold_left step [LLeave 0; LLeave 0; LSend 0] s) = false.
+Proof.
+  exists [LStart; LConnect; LSendWait 0; LLeave 0; LStop]. vm_compute. repeat split; reflexivity.
+Qed.
 
 (** Once the task has completed a Unix server's socket file is gone; while it has not, the file
     is there. *)
@@ -98,7 +115,7 @@ Proof.
   - apply (inv_sock_there _ I).
     assert (H : forall t u, v_kind (fold_left step t u) = v_kind u).
     { induction t as [|l t IH]; intros u; cbn [fold_left]; [reflexivity|]. rewrite IH.
-      destruct l as [| | | |c|c|c|]; cbn [step].
+      destruct l as [| | | |c|c|c|c|c|]; cbn [step].
       - destruct (v_started u && negb (v_done u)); reflexivity.
       - destruct (v_listening u); reflexivity.
       - destruct (v_listening u); reflexivity.
@@ -108,7 +125,13 @@ Proof.
         match goal with |- v_kind (settle ?z) = _ => destruct (settle_fields z) as [Hk _] end.
         exact Hk.
       - destruct (nth_error (v_conns u) c) as [x|]; [|reflexivity].
-        destruct (k_client_open x && k_session x && k_hello x); [|reflexivity].
+        destruct (k_client_open x && k_session x && k_hello x && negb (k_waiting x)); [|reflexivity].
+        match goal with |- v_kind (settle ?z) = _ => destruct (settle_fields z) as [Hk _] end.
+        exact Hk.
+      - destruct (nth_error (v_conns u) c) as [x|]; [|reflexivity].
+        destruct (k_client_open x && k_session x && k_hello x && negb (k_waiting x)); reflexivity.
+      - destruct (nth_error (v_conns u) c) as [x|]; [|reflexivity].
+        destruct (k_client_open x); [|reflexivity].
         match goal with |- v_kind (settle ?z) = _ => destruct (settle_fields z) as [Hk _] end.
         exact Hk.
       - destruct (nth_error (v_conns u) c) as [x|]; [|reflexivity].
@@ -140,13 +163,13 @@ Theorem C19_pending_handshake_is_local : forall k tr c x,
   k_hello x = false ->
   nth_error (v_conns (step s (LHello c))) c
   = Some {| k_client_open := true; k_session := v_listening s; k_replies := S (k_replies x);
-            k_hello := true |} /\
+            k_hello := true; k_waiting := false |} /\
   (forall c', c' <> c -> nth_error (v_conns (step s (LHello c))) c' = nth_error (v_conns s) c') /\
   (v_listening s = true ->
    v_conns (step s LOpen) = v_conns s ++ [{| k_client_open := true; k_session := true;
-                                             k_replies := 0; k_hello := false |}] /\
+                                             k_replies := 0; k_hello := false; k_waiting := false |}] /\
    v_conns (step s LConnect) = v_conns s ++ [{| k_client_open := true; k_session := true;
-                                                k_replies := 1; k_hello := true |}]).
+                                                k_replies := 1; k_hello := true; k_waiting := false |}]).
 Proof.
   intros k tr c x s Hx Ho Hse Hh. cbn [step]. rewrite Hx, Ho, Hse, Hh. cbn [andb negb].
   match goal with |- context [settle ?z] => destruct (settle_fields z) as [_ [_ [Hc _]]] end.
@@ -172,7 +195,7 @@ Proof.
   repeat split; auto. intros ->.
   assert (H : forall t u, v_kind (fold_left step t u) = v_kind u).
   { induction t as [|l t IH]; intros u; cbn [fold_left]; [reflexivity|]. rewrite IH.
-    destruct l as [| | | |c|c|c|]; cbn [step].
+    destruct l as [| | | |c|c|c|c|c|]; cbn [step].
     - destruct (v_started u && negb (v_done u)); reflexivity.
     - destruct (v_listening u); reflexivity.
     - destruct (v_listening u); reflexivity.
@@ -182,7 +205,13 @@ Proof.
       match goal with |- v_kind (settle ?z) = _ => destruct (settle_fields z) as [Hk _] end.
       exact Hk.
     - destruct (nth_error (v_conns u) c) as [x|]; [|reflexivity].
-      destruct (k_client_open x && k_session x && k_hello x); [|reflexivity].
+      destruct (k_client_open x && k_session x && k_hello x && negb (k_waiting x)); [|reflexivity].
+      match goal with |- v_kind (settle ?z) = _ => destruct (settle_fields z) as [Hk _] end.
+      exact Hk.
+    - destruct (nth_error (v_conns u) c) as [x|]; [|reflexivity].
+      destruct (k_client_open x && k_session x && k_hello x && negb (k_waiting x)); reflexivity.
+    - destruct (nth_error (v_conns u) c) as [x|]; [|reflexivity].
+      destruct (k_client_open x); [|reflexivity].
       match goal with |- v_kind (settle ?z) = _ => destruct (settle_fields z) as [Hk _] end.
       exact Hk.
     - destruct (nth_error (v_conns u) c) as [x|]; [|reflexivity].
@@ -210,4 +239,12 @@ Print Assumptions C19_stop.
 Print Assumptions C19_socket_file.
 Print Assumptions C19_restart.
 Print Assumptions C19_pending_handshake_is_local.
+(** ... whereas a client that vanishes with a connection *reset* takes its transport with it: the
+    same history with an abort instead of a clean disconnect lets the stop complete. *)
+Example C19_abort_frees_the_stop :
+  let s := run TCP [LStart; LConnect; LSendWait 0; LAbort 0; LStop] in
+  v_done s = true /\ v_listening s = false.
+Proof. vm_compute. split; reflexivity. Qed.
+
 Print Assumptions C19_stop_completes.
+Print Assumptions C19_stop_waits_for_waiting_session.
